@@ -3,6 +3,7 @@ import N0Verif.Proofs.XPathPureApi
 import N0Verif.Proofs.XPathPureInfix
 import N0Verif.Proofs.XPathPureDiverge
 import N0Verif.Proofs.XPathTok
+import N0Verif.Proofs.XPathTermApi
 /-!
 # C04 — lookups are total and pure: a miss yields the default, never a change
 
@@ -292,15 +293,49 @@ example : Safe ['*', '/', 'x'] ∧ SafeTree starTree := by
 blanks, not `..`) — the trees of the property's quantifier and of the harness -/
 def PlainTree (t : Val) : Prop := SafeKeys PlainKey t
 
-/-- **Fuel adequacy (statement, not proved).**  On a tree with plain-name keys some fuel,
-depending on the tree and the path, is enough: `OutOfFuel` then is an artefact of the model and
-does not stand for an infinite search.  (Without the hypothesis on keys it is false:
-`C04_star_key_diverges_cex`.  The resolver re-resolves its `found` string from the root in the
-`..` step and after a `text()` condition, so no simple measure on the token list decreases; the
-correspondence streams never met a lookup on a plain-key tree that exhausts the harness's fuel.) -/
+/-- **Fuel adequacy (statement).**  On a tree with plain-name keys some fuel, depending on the tree
+and the path, is enough: `OutOfFuel` then is an artefact of the model and does not stand for an
+infinite search.  (Without the hypothesis on keys it is false: `C04_star_key_diverges_cex`.)
+Proved: `C04_fuel_enough`, with the explicit bound `termFuel` (`C04_fuel_bound`). -/
 def C04_fuel_enough_stmt : Prop :=
   ∀ (t : Val) (s : Str), Safe s → PlainTree t →
     ∃ n, ∀ fuel ≥ n, ∀ d, (XPath.get fuel t s d).2 ≠ .error .OutOfFuel
+
+/-! ## Termination
+
+The resolver re-resolves its `found` string from `self` in the `..` step, after a `text()`
+condition and when the token list is exhausted; `*` puts itself back in front of the key it
+visits; a name on a list inserts `[*]`.  No measure on the token list alone decreases.  The proof
+(`Proofs/XPathTerm*.lean`) uses three facts: (1) the `found` text consists of `/key` and `[i]`
+pieces only (`TermFound`), so a re-resolution never meets `..`, `*`, a condition or `text()`
+again and costs at most `(W+4)·H + 2·pieces + 1` (`term_plain`; a `[new()]` step is one such re-resolution); (2) every step that does not
+consume a token goes one level down in the tree (`termZ`, `termN`: recursion on the height);
+(3) `..` consumes its token and lengthens `found` by at most `2·H` pieces.  `termPot H W toks h g`
+is the resulting bound: a function of the tokens (their parse), the height `h` of the current node,
+the number `g` of pieces of `found`, and the height `H` and width `W` of the tree. -/
+
+/-- **Fuel bound.**  For every path text on a tree with plain-name keys, `termFuel t s` steps of
+fuel are enough for `get`, item access and `first`: none of them answers `OutOfFuel`.  (Since fix
+C04-a a `new()` step ends the search after one re-resolution of `found`, so no hypothesis on the
+path is needed.) -/
+theorem C04_fuel_bound (t : Val) (s : Str) (ht : PlainTree t) (fuel : Nat) (hf : termFuel t s ≤ fuel) (d : Val) :
+    (XPath.get fuel t s d).2 ≠ .error .OutOfFuel ∧ (getItem fuel t s).2 ≠ .error .OutOfFuel ∧
+    (first fuel t s d).2 ≠ .error .OutOfFuel := by
+  refine ⟨term_getCore fuel t s d false true ht hf, term_getCore fuel t s Val.none true true ht hf, ?_⟩
+  rw [C04_first_eq]
+  have := term_getCore fuel t s d false false ht hf
+  cases h : getCore fuel t s d false false with
+  | mk t' res =>
+    rw [h] at this
+    cases res with
+    | ok v => simp
+    | error e => simpa using this
+
+/-- **Termination**: the search ends — for every tree with plain-name keys and every string there is a
+fuel from which on the model never answers `OutOfFuel` (the hypothesis `Safe s` of the statement is not
+used). -/
+theorem C04_fuel_enough : C04_fuel_enough_stmt :=
+  fun t s _ ht => ⟨termFuel t s, fun fuel hf d => (C04_fuel_bound t s ht fuel hf d).1⟩
 
 /-! Non-vacuity of the partial theorems: the hypotheses hold for paths that exercise the
 `..`, `*`, `[*]`, condition, `text()` and index branches, and for a path that is not `NoW`
@@ -438,5 +473,68 @@ example : setItem 20 exTree ['a', '/', 'e', '[', 'n', 'e', 'w', '(', ')', ']'] (
     = (.dict .n0 [(['a'], .dict .n0 [(['e'], .list .n0 [.int 1, .int 5])])], .ok ()) := by decide
 
 /-! ## ===== block added by worker c03fix (fix C04-a) — end ===== -/
+
+/-! Non-vacuity of the termination theorems: `exTree2` has plain-name keys; the bound is a concrete
+number for the condition path (which goes through `[text()…]`, `..` and a re-resolution of `found`),
+for a `..` path and for a `*` path, and the model run with that fuel returns. -/
+
+theorem exTree2_plain : PlainTree exTree2 := by
+  have hk : ∀ k : Str, k ≠ [] → (∀ c ∈ k, plainChar c = true) → k ≠ ['.', '.'] → PlainKey k := fun _ a b c => ⟨a, b, c⟩
+  simp only [PlainTree, exTree2, SafeKeys, SafeKeysK, SafeKeysL, and_true, true_and]
+  repeat' apply And.intro
+  all_goals exact hk _ (by decide) (by decide) (by decide)
+
+/-- **Totality.**  For ANY string xpath, on a tree with plain-name keys, with enough fuel `get` and
+`first` return normally — the caller's default on a miss or an ill-formed path; the only other outcome is
+the model's declared `Unsupported` (a float in a `text()` comparison, `%` in a quoted value,
+non-ASCII digits, …).  No hypothesis on the path; no `OutOfFuel` escape clause. -/
+theorem C04_get_total (t : Val) (s : Str) (d : Val) (hp : PlainTree t) (fuel : Nat) (hf : termFuel t s ≤ fuel) :
+    ((∃ v, (XPath.get fuel t s d).2 = .ok v) ∨ (XPath.get fuel t s d).2 = .error .Unsupported) ∧
+    ((∃ v, (first fuel t s d).2 = .ok v) ∨ (first fuel t s d).2 = .error .Unsupported) := by
+  obtain ⟨h1, _, h3⟩ := C04_fuel_bound t s hp fuel hf d
+  obtain ⟨p1, p2⟩ := C04_get_total_any_partial fuel t s d
+  constructor
+  · rcases p1 with h | ⟨e, he, hm | hm⟩
+    · exact Or.inl h
+    · subst hm; exact absurd he h1
+    · subst hm; exact Or.inr he
+  · rcases p2 with h | ⟨e, he, hm | hm⟩
+    · exact Or.inl h
+    · subst hm; exact absurd he h3
+    · subst hm; exact Or.inr he
+
+/-- **Item access raises only the allowed classes.**  For any string on a tree with plain-name keys, with
+enough fuel, item access raises one of KeyError/IndexError/ValueError/TypeError/SyntaxError (and nothing
+for a `?`-prefixed path), or the model declares the input `Unsupported`. -/
+theorem C04_getitem_errclass (t : Val) (s : Str) (e : PyErr) (hp : PlainTree t)
+    (fuel : Nat) (hf : termFuel t s ≤ fuel) (h : (getItem fuel t s).2 = .error e) :
+    (allowed e = true ∧ startsWith s ['?'] = false) ∨ e = .Unsupported := by
+  rcases C04_getitem_errclass_any_partial fuel t s e h with h' | hm | hm
+  · exact Or.inl h'
+  · subst hm; exact absurd h (C04_fuel_bound t s hp fuel hf Val.none).2.1
+  · exact Or.inr hm
+
+example : termFuel exTree2 ['r', '[', 'i', 'd', '=', '2', ']', '/', 'w'] = 122 := by decide +kernel
+example : termFuel exTree2 ['r', '[', '-', '1', ']', '/', '.', '.', '/', 'n', 'e', 'w'] = 135 := by decide +kernel
+example : termFuel exTree2 ['*', '/', 'x'] = 122 := by decide +kernel
+example : (XPath.get 122 exTree2 ['r', '[', 'i', 'd', '=', '2', ']', '/', 'w'] .none).2 = .ok (.list .n0 [.str ['y']]) := by
+  decide +kernel
+example : (∃ v, (XPath.get 122 exTree2 ['*', '/', 'x'] (.str ['D'])).2 = .ok v) :=
+  ((C04_get_total exTree2 ['*', '/', 'x'] (.str ['D']) exTree2_plain 122 (by decide +kernel)).1).resolve_right
+    (by decide +kernel)
+-- a path with a `new()` step (not `Safe`): the bound covers it, `get` returns the default
+theorem exTree_plain : PlainTree exTree := by
+  have hk : ∀ k : Str, k ≠ [] → (∀ c ∈ k, plainChar c = true) → k ≠ ['.', '.'] → PlainKey k := fun _ a b c => ⟨a, b, c⟩
+  simp only [PlainTree, exTree, SafeKeys, SafeKeysK, and_true]
+  repeat' apply And.intro
+  all_goals exact hk _ (by decide) (by decide) (by decide)
+example : (XPath.get (termFuel exTree ['a', '/', 'e', '[', 'n', 'e', 'w', '(', ')', ']', '/', 'x']) exTree
+    ['a', '/', 'e', '[', 'n', 'e', 'w', '(', ')', ']', '/', 'x'] (.str ['D'])).2 = .ok (.str ['D']) := by decide +kernel
+example : ¬ Safe ['a', '/', 'e', '[', 'n', 'e', 'w', '(', ')', ']', '/', 'x'] := by decide
+-- the hypothesis on keys is needed: the diverging tree is not plain
+example : ¬ PlainTree starTree := by
+  simp only [PlainTree, starTree, SafeKeys, SafeKeysK, and_true]
+  intro h
+  exact absurd (h.chars '*' (by simp)) (by decide)
 
 end N0.C04
